@@ -14,7 +14,7 @@ MUT = [
     ("M04_no_fifo_clamp", "C03 C04", A, "recv_sc = round(max(sent_sc + delay, self._prev_recv_sc), 6)", "recv_sc = round(sent_sc + delay, 6)"),
     ("M05_no_eps_filter", "C05", A, "        elif header.eps != self.input_node.eps:\n            self.log(\"push_ts_input (PREV EPS)\"", "        elif False:\n            self.log(\"push_ts_input (PREV EPS)\""),
     ("M06_window_oldest", "C03 C01", A, "self.q_grouped.append(grouped[-self.connection.window :])", "self.q_grouped.append(grouped[: self.connection.window])"),
-    ("M07_blocking_le_lt", "C03", A, "                    if t_low < t <= t_high and not skip:", "                    if t_low <= t < t_high and not skip:"),
+    ("M07_blocking_le_lt", "C03 C05", A, "                    if t_low < t <= t_high and not skip:", "                    if t_low <= t < t_high and not skip:"),
     ("M08_no_drift_accumulation", "C04", A, "                self._phase_scheduled += max(0, phase_last - phase_scheduled)", "                self._phase_scheduled = max(0, phase_last - phase_scheduled)"),
     ("M09_phase_no_reset", "C04", A, "            else:  # self.scheduling in [PHASE]\n                self._phase_scheduled = 0.0", "            else:  # self.scheduling in [PHASE]\n                self._phase_scheduled += max(0, phase_last - phase_scheduled)"),
     ("M10_only_blocking_ignored", "C04", A, "            only_blocking = self.node.advance and all(i.connection.blocking for i in self.inputs.values())", "            only_blocking = False"),
@@ -23,7 +23,7 @@ MUT = [
     ("M13_buffer_size_no_plus_one", "C08 C01", "rex/base.py", "                max_s = s.max() + 1", "                max_s = max(s.max(), 1)"),
     ("M14_supervisor_timing_step", "C01 C13 C06", "rex/graph.py", "timing = rjax.tree_take(graph_state.timings_eps.slots[supervisor_slot], i=graph_state.step - 1)\n            # Define NOOP", "timing = rjax.tree_take(graph_state.timings_eps.slots[supervisor_slot], i=graph_state.step)\n            # Define NOOP"),
     ("M15_window_index_off_by_one", "C07 C01", "rex/utils.py", "                idx = jnp.argwhere(reversed_seq_in <= _seq, size=1, fill_value=-1)[0, 0]", "                idx = jnp.argwhere(reversed_seq_in < _seq, size=1, fill_value=-1)[0, 0]"),
-    ("M16_run_mask_ignored", "C06 C07", "rex/partition_runner.py", "            pred = timings_gen[slot_kind].run  # Predicate for running node step", "            pred = jnp.logical_or(timings_gen[slot_kind].run, timings_gen[slot_kind].seq > 0)  # Predicate for running node step"),
+    ("M16_run_mask_ignored", "C06 C07", "rex/partition_runner.py", "            pred = timings_gen[slot_kind].run  # Predicate for running node step", "            pred = jnp.logical_or(timings_gen[slot_kind].run, timings.slots[slot_kind].generation == 1)  # Predicate for running node step"),
     ("M17_record_state_after_step", "C13", A, "                state=step_state.state if self.record_setting[\"state\"] else None,\n            )\n\n            # Run step and get new state and output\n            new_step_state, output = self._async_step(step_state)\n", "            )\n\n            # Run step and get new state and output\n            new_step_state, output = self._async_step(step_state)\n            record_step = record_step.replace(state=(new_step_state or step_state).state if self.record_setting[\"state\"] else None)\n"),
     ("M18_set_delay_ignores_delay", "C16", "rex/node.py", "        self.delay = delay if delay is not None else self.delay\n\n    @property\n    def info(self) -> base.InputInfo:", "        self.delay = self.delay if delay is not None else self.delay\n\n    @property\n    def info(self) -> base.InputInfo:"),
     ("M19_record_changes_rng", "C13", A, "                rng=step_state.rng if self.record_setting[\"rng\"] else None,", "                rng=step_state.rng if self.record_setting[\"rng\"] else None,\n            )\n            if self.record_setting[\"inputs\"] and not self.record_setting[\"state\"]:\n                step_state = step_state.replace(rng=rnd.fold_in(step_state.rng, 1))\n            record_step = record_step.replace("),
